@@ -25,6 +25,12 @@ Proof.
   intros Hi. rewrite (nth_indep _ db (f da)) by (rewrite map_length; exact Hi). apply map_nth.
 Qed.
 
+Lemma last_cons_default {A} : forall (l : list A) a d, last (a :: l) d = last l a.
+Proof.
+  induction l as [|x l IH]; intros a d; [reflexivity|].
+  change (last (a :: x :: l) d) with (last (x :: l) d). rewrite (IH x d), (IH x a). reflexivity.
+Qed.
+
 (* ---------------- designated-id specification of the SPE log ---------------- *)
 Lemma global_iter_des_ok_b_ok range N nu perm idps :
   global_iter_des_ok_b range N nu perm idps = true <-> global_iter_des_ok range N nu perm idps.
@@ -287,10 +293,10 @@ Section Des.
 
   (* with fa_epsilon-test never firing the loop runs all its rounds: stop_round returns the last A *)
   Lemma stop_round_never : forall (tr : list (mat F * F)) iter ll A,
-    stop_round (fun _ _ => false) iter ll tr A = fst (last tr (A, ll)).
+    stop_round (fun _ _ => false) iter ll tr A = last (map fst tr) A.
   Proof.
     induction tr as [|[A' nll] tr IH]; intros iter ll A; [reflexivity|].
-    cbn [stop_round]. rewrite andb_false_r. rewrite IH. destruct tr; reflexivity.
+    cbn [stop_round map fst]. rewrite andb_false_r, IH. symmetry. apply last_cons_default.
   Qed.
 
   (* what the replay observes of round t is X^T A_t for the A_t of the trajectory *)
